@@ -47,6 +47,13 @@ func TestVerif(t *testing.T) {
 }
 
 var registry = map[string]func(t *testing.T, c *Collector){
+	"C10": func(t *testing.T, c *Collector) {
+		c.res.Rule = "legacy stores (version-2 single-file index, unversioned single-file primary, legacy freelist present or absent, primary tail cut off or not) generated from a set of histories with overwrites and removals; opened with every combination of index/primary file-size limits from {1,40,64,default}: contents must equal the generating map (cut-off keys absent), through a continuation with GC and a rescan reopen; every crash point and torn write of the upgrading open: reopening must complete the upgrade with the same contents; non-trivial = stores with >= 2 keys, plus torn images"
+		runC10Seq(c)
+		runCrashScenarios(c, c10CrashScenarios(c.job.Tier))
+		c.count("nontrivial", c.res.Counters["torn_images"])
+		c.res.Engine = "S + X (legacy-store generator x file-size limits; crash-image enumerator over the upgrading open)"
+	},
 	"C09": func(t *testing.T, c *Collector) {
 		c.res.Rule = "contents = end states of every history of <= depth ops over a colliding-key alphabet (multi-file index), closed under bit size b1 and reopened under b2 for every ordered pair of the bit-size set, then reads, iteration, a continuation, reopen (rescan) and reopen with b2 again against the reference map; file-size mismatches (index / primary / both) must be refused with the specific error, leave the directory byte-identical and the original settings working; every crash point and torn write of the re-bucketing reopen: opening the image with b1 and with b2 must each fail or show every previous key; non-trivial = histories ending with >= 2 keys sharing a bucket, plus torn images"
 		runSeqScenarios(c, c09Scenarios(c.job.Tier))
